@@ -5,8 +5,8 @@
   `_introspect_error_quark`) and the parts of giscanner/maintransformer.py that finish the
   merge (`_pass_type_resolution`: parent-chain walk, `_resolve_and_filter_type_list`;
   `_split_uscored_by_type` / `_pair_static_method` as far as they decide whether an
-  error-quark function stays in the namespace; `_pair_class_virtuals`;
-  `_pair_quarks_with_enums`), plus `Type.create_from_gtype_name` / `Type._compare` of ast.py.
+  error-quark function stays in the namespace or is floated into a class (`Namespace.float`);
+  `_pair_class_virtuals`; `_pair_quarks_with_enums` over `Namespace.symbols`), plus `Type.create_from_gtype_name` / `Type._compare` of ast.py.
 
   The model starts where the dump parser starts: at the namespace produced by
   `Transformer.parse` (a list of nodes, insertion order of `Namespace.names`) and at the dump
@@ -609,14 +609,24 @@ def quarkFloated (env : Env) (reg : List (Str × Node)) (q : Node) : Except Stri
         | some (t, fname) => pure (!fname.isEmpty && t.kind == .cls)
         | none => pure false
 
-def floatQuarks (env : Env) (reg : List (Str × Node)) : NS → Except String NS
-  | [] => pure []
+/-- the function-pairing loop of `transform` as far as the error-quark functions go: `.1` = the
+    namespace afterwards (a function that a class now owns has left `Namespace.names`), `.2` = the
+    functions `Namespace.float` took out, in loop order.  `float` keeps the function reachable:
+    it deletes the symbol from `Namespace.symbols` and inserts it again, i.e. at the END of the dict. -/
+def floatQuarks (env : Env) (reg : List (Str × Node)) : NS → Except String (NS × List Node)
+  | [] => pure ([], [])
   | n :: ns => do
-    let rest ← floatQuarks env reg ns
+    let r ← floatQuarks env reg ns
     if n.kind == .quark then
       if n.nparams != 0 then .error "outside: error-quark function with parameters"
-      else if (← quarkFloated env reg n) then pure rest else pure (n :: rest)
-    else pure (n :: rest)
+      else if (← quarkFloated env reg n) then pure (r.1, n :: r.2) else pure (n :: r.1, r.2)
+    else pure (n :: r.1, r.2)
+
+/-- `Namespace.symbols.values()` as far as the error-quark functions go when
+    `_pair_quarks_with_enums` runs: those still in the namespace in namespace order (both dicts
+    receive an `ErrorQuarkFunction` at their end in `_introspect_error_quark`), then the floated
+    ones in the order they were floated -/
+def symbolsOrder (kept : NS) (floated : List Node) : List Node := kept ++ floated
 
 /-! ## MainTransformer: virtual methods -/
 
@@ -688,7 +698,9 @@ def quarkTarget (env : Env) (reg : List (Str × Node)) (ns : NS) (q : Node) : Ex
 def setErrorDomain (ns : NS) (target : Str) (dom : Option Str) : NS :=
   nsUpdate ns target (fun n => if n.kind == .enum then { n with errorDomain := dom } else n)
 
-/-- the loop over the error-quark functions still in the namespace, in namespace order -/
+/-- the loop `for node in list(self._namespace.symbols.values())`: every error-quark function
+    the namespace knows by symbol — those still in it AND those moved into a class as static
+    methods in the meantime — in the order of the `symbols` dict (`qs`) -/
 def pairQuarksLoop (env : Env) (reg : List (Str × Node)) (ns0 : NS) : List Node → NS → Except String NS
   | [], acc => pure acc
   | q :: qs, acc =>
@@ -698,13 +710,19 @@ def pairQuarksLoop (env : Env) (reg : List (Str × Node)) (ns0 : NS) : List Node
       | none => pairQuarksLoop env reg ns0 qs acc
     else pairQuarksLoop env reg ns0 qs acc
 
-def pairQuarksWithEnums (env : Env) (reg : List (Str × Node)) (ns : NS) : Except String NS :=
-  pairQuarksLoop env reg ns ns ns
+def pairQuarksWithEnums (env : Env) (reg : List (Str × Node)) (ns : NS) (floated : List Node) : Except String NS :=
+  pairQuarksLoop env reg ns (symbolsOrder ns floated) ns
 
 /-! ## the whole merge -/
 
 structure Merged where
   afterParse : NS
+  /-- `_uscore_type_names` -/
+  reg : List (Str × Node)
+  /-- the namespace when `_pair_quarks_with_enums` starts -/
+  paired : NS
+  /-- the error-quark functions that became static methods of a class -/
+  floated : List Node
   final : NS
   privates : List Str
 
@@ -713,18 +731,18 @@ def merge (env : Env) (ns : NS) (dump : List DItem) : Except String Merged := do
   let (ns1, priv) ← parseDump env ns dump
   let ns2 := resolvePass env ns1
   let reg := uscoreTypeNames ns2
-  let ns3 ← floatQuarks env reg ns2
-  let ns4 := pairVirtuals env ns3
-  let ns5 ← pairQuarksWithEnums env reg ns4
-  pure { afterParse := ns1, final := ns5, privates := priv }
+  let fl ← floatQuarks env reg ns2
+  let ns4 := pairVirtuals env fl.1
+  let ns5 ← pairQuarksWithEnums env reg ns4 fl.2
+  pure { afterParse := ns1, reg := reg, paired := ns4, floated := fl.2, final := ns5, privates := priv }
 
 /-! ## the writer's order (girwriter.py `_write_class`: `sorted(...)`) -/
 
-/-- `_write_property`: `if prop.default_value: attrs.append(('default-value', …))` — Python
-    truthiness: neither None nor the empty string is written -/
+/-- `_write_property`: `if prop.default_value is not None: attrs.append(('default-value', …))` —
+    only an absent default is not written; the empty string is -/
 def writtenDefault : Option Str → Option Str
-  | some [] => none
-  | d => d
+  | none => none
+  | some s => some s
 
 def strLe (a b : Str) : Bool := decide (a ≤ b)
 
